@@ -129,11 +129,9 @@ Definition move_if_file (cwd rdir old new : str) (root : node) : result unit * n
   then fs_replace root cwd src (path_join rdir (path_join s_dotsignac new))
   else (Ok tt, root).
 
-(* step 1 of _migrate_v1_to_v2: the custom workspace directory.
-   DEFECT F17 lives exactly here: os.replace is attempted although the configured directory may
-   not exist (a project that never initialised a job).  When the fix lands (skip the move when
-   the directory is absent) change the line marked F17 to
-       else if os_exists root cwd cur then fs_replace root cwd cur new else (Ok tt, root)    *)
+(* step 1 of _migrate_v1_to_v2: the custom workspace directory.  Since the repair of F17
+   (fix: commit 8637b58) the move is skipped when the configured directory does not exist
+   (a project that never initialised a job). *)
 Definition move_workspace (cwd rdir : str) (c : cfgrec) (root : node) : result unit * node :=
   let w := match cws c with Some w => w | None => s_workspace end in   (* configspec default *)
   if str_eqb w s_workspace then (Ok tt, root)
@@ -141,7 +139,7 @@ Definition move_workspace (cwd rdir : str) (c : cfgrec) (root : node) : result u
     let cur := path_join rdir w in
     let new := path_join rdir s_workspace in
     if os_exists root cwd new then (Err ERuntimeError, root)
-    else fs_replace root cwd cur new.                                   (* F17 *)
+    else if os_exists root cwd cur then fs_replace root cwd cur new else (Ok tt, root).
 
 Definition migrate_v1_to_v2 (root : node) (cwd rdir : str) : result unit * node :=
   match load_v1 root cwd rdir with
